@@ -281,6 +281,23 @@ func (s *genState) genProblem(req M) {
 		replaceSome(s.critIds, exoticC)
 		replaceSome(s.altIds, exoticA)
 		s.label("exoticIds")
+		if o.BiasLikeIds && g.Bool() {
+			// several declared criteria named like the ids a bias would generate next: base, base1, base2, ... from
+			// some start, so that the search for an unused name has to skip more than one
+			base := g.Pick("__concealedCriterion__", "__"+s.critIds[0]+"+"+s.critIds[len(s.critIds)-1]+"__", "__anchoring_criterion_ideal", "__anchoring_criterion_nadir")
+			start := g.Int(0, 3)
+			for i := range s.critIds {
+				if i == 0 && g.Bool() {
+					continue
+				}
+				id := base
+				if n := start + i; n > 0 {
+					id = fmt.Sprintf("%s%d", base, n)
+				}
+				s.critIds[i] = id
+			}
+			s.label("numberedBiasLikeIds")
+		}
 	}
 	mode := o.ValueMode
 	if mode < 0 {
